@@ -306,4 +306,59 @@ theorem fcLoop_spec : ∀ (src : List Nat) (dmax : Nat), (∀ c ∈ src, c ≠ 0
                 rw [hr] at this
                 cases this
 
+/-! ## `wcsfc_s` itself -/
+
+/-- every input (no embedded terminator), every `dmax` -/
+theorem wcsfcS_model (dmax : Nat) (src : List Nat) (h0 : ∀ c ∈ src, c ≠ 0) :
+    (wcsfcS current dmax src).oob = false ∧
+    ((wcsfcS current dmax src).ret = 0 → (wcsfcS current dmax src).overrun = false →
+      (wcsfcS current dmax src).out = fcPure src ∧ (wcsfcS current dmax src).len = (fcPure src).length ∧
+      (fcPure src).length < dmax ∧ dmax ≤ RSIZE_MAX_WSTR ∧ ∀ c ∈ src, c ≤ 0x10FFFF) ∧
+    ((fcPure src).length ≤ dmax → (wcsfcS current dmax src).overrun = false) := by
+  obtain ⟨i1, i2, i3, i4, _⟩ := fcLoop_spec src dmax h0
+  unfold wcsfcS
+  by_cases hd : dmax = 0
+  · simp [hd, ESZEROL]
+  · by_cases hmax : dmax > RSIZE_MAX_WSTR
+    · simp [hd, hmax, ESLEMAX]
+    · simp only [hd, if_false, hmax]
+      cases hr : fcLoop current src dmax with
+      | ok out d =>
+        cases d with
+        | zero => simp [ESNOSPC]
+        | succ d =>
+          obtain ⟨e1, e2, e3⟩ := i3 out (d + 1) hr (by omega)
+          refine ⟨rfl, ?_, fun _ => rfl⟩
+          intro _ _
+          subst e1
+          exact ⟨rfl, by simp only []; omega, by omega, by omega, e3⟩
+      | fail r l =>
+        have hr0 : r ≠ 0 := by
+          rcases i2 r l hr with ⟨h, _⟩ | ⟨h, _⟩ <;> rw [h] <;> decide
+        have hr1 : ((r : Nat) : Int) ≠ 0 := by exact_mod_cast hr0
+        have hr2 : -((r : Nat) : Int) ≠ 0 := by omega
+        refine ⟨?_, ?_, ?_⟩
+        · split <;> first | rfl | simp_all
+        · intro h
+          split at h <;> simp_all
+        · intro _
+          split <;> first | rfl | simp_all
+      | oob => exact absurd hr i1
+      | overrun =>
+        refine ⟨rfl, ?_, ?_⟩
+        · intro _ h; exact absurd h (by simp)
+        · intro hlen; exact absurd hr (i4 hlen)
+
+/-- four cells more than the result: `wcsfc_s` succeeds (sharp: `wcsfc_exact_fit_witness`) -/
+theorem wcsfcS_succeeds (dmax : Nat) (src : List Nat) (hs : ∀ c ∈ src, c ≠ 0 ∧ c ≤ 0x10FFFF) (hmax : dmax ≤ RSIZE_MAX_WSTR)
+    (hroom : (fcPure src).length + 4 ≤ dmax) :
+    wcsfcS current dmax src = ⟨0, (fcPure src).length, fcPure src, false, false⟩ := by
+  obtain ⟨_, _, _, _, i5⟩ := fcLoop_spec src dmax (fun c hc => (hs c hc).1)
+  have h := i5 (fun c hc => (hs c hc).2) hroom
+  obtain ⟨k, hk⟩ : ∃ k, dmax - (fcPure src).length = k + 1 := ⟨dmax - (fcPure src).length - 1, by omega⟩
+  unfold wcsfcS
+  rw [if_neg (by omega), if_neg (by omega), h, hk]
+  simp only [Res.mk.injEq, and_true, true_and]
+  omega
+
 end SafeC.Fold
